@@ -95,7 +95,9 @@ func fieldLoad(name string) srcPred {
 var excC19 = map[string]excEntry{
 	"(*tonconnect.Server).CheckPayload P2 slice hash.Hash.Sum()[:16]": {"Sum(nil) of an HMAC-SHA256 returns exactly 32 bytes (library contract)", nil},
 }
-var excC19E2 = map[string]string{}
+var excC19E2 = map[string]string{
+	"(*tonconnect.Server).CheckProof R-ignored tonconnect.Server.getWalletPubKey": "documented fallback: when the key cannot be fetched from the chain it is taken from the supplied state-init, which must hash to the address (checked under E8)",
+}
 
 func (c *Ctx) tonProofLayout() {
 	const R = "E7.bytelayout"
